@@ -139,8 +139,63 @@ def check_dup(res, rec, flavour):
                       [[k[0], str(k[1])[:120], list(outcomes[k])] for k in ks[:4]], "one outcome for every order of the rows", sig="gbdup-order-dependent")
 
 
+def check_fc_types(res, types_per_feature, strand, order):
+    """"feature types are collected from every type-like qualifier" - of the feature they are written on: a feature collection
+    of two or three features with DIFFERENT types (one locus tag for all its rows) is written and read back; every interval
+    that comes back carries its row type plus its own type values, whatever its neighbours carry and in whatever order the
+    rows stand in the file"""
+    import io as _io
+
+    from inscripta.biocantor.gene import AnnotationCollection
+    from inscripta.biocantor.gene.collections import FeatureIntervalCollection
+    from inscripta.biocantor.io.genbank.writer import collection_to_genbank
+    from inscripta.biocantor.io.genbank.parser import parse_genbank, GenBankParserType
+
+    genome = W.GENOMES["A"]
+    par = lib.chrom_parent(genome, name=IO.SEQNAME)
+    feats, exp = [], {}
+    for i, types in enumerate(types_per_feature):
+        bl = ((2 + 9 * i, 6 + 9 * i),)
+        feats.append(lib.mk_feat(bl, strand, par, feature_name=f"n{i}", feature_id=f"i{i}", feature_types=list(types), sequence_name=IO.SEQNAME))
+        exp[bl[0]] = {"feat_interval"} | set(types)
+    case = {"kind": "genbank-fctypes", "types": [list(t) for t in types_per_feature], "strand": strand, "order": list(order)}
+
+    def roundtrip():
+        fc = FeatureIntervalCollection(feats, feature_collection_name="fc", feature_collection_id="fcid", locus_tag="LTfc", sequence_name=IO.SEQNAME, parent_or_seq_chunk_parent=par)
+        ac = AnnotationCollection(feature_collections=[fc], sequence_name=IO.SEQNAME, parent_or_seq_chunk_parent=par)
+        buf = _io.StringIO()
+        collection_to_genbank([ac], buf)
+        head, blocks, tail = IO.split_feature_blocks(buf.getvalue())
+        text = IO.join_feature_blocks(head, [blocks[i] for i in order if i < len(blocks)] + [b for i, b in enumerate(blocks) if i not in order], tail)
+        d = list(parse_genbank(_io.StringIO(text), gbk_type=GenBankParserType.LOCUS_TAG))[0].to_annotation_collection().to_dict()
+        got = {}
+        for c in d["feature_collections"]:
+            for f in c["feature_intervals"]:
+                got[(f["interval_starts"][0], f["interval_ends"][-1])] = set(f["feature_types"])
+        return got
+
+    o = lib.outcome(roundtrip)
+    res.trans()
+    res.state(("fctypes", tuple(types_per_feature), strand, tuple(order)))
+    res.nontriv(("fctypes", tuple(types_per_feature), strand, tuple(order)))
+    res.note("genbank-fctypes", f"{len(types_per_feature)}-features")
+    if o[0] != "ok":
+        res.deviation("parse_genbank:feature types", case, o[1], {str(k): sorted(v) for k, v in exp.items()}, sig="fctypes-raises")
+        return
+    bad = {str(k): [sorted(o[1].get(k, [])), sorted(v)] for k, v in exp.items() if o[1].get(k) != v}
+    if bad:
+        res.deviation("parse_genbank:feature types", case, bad, "row type + the feature's own type values", sig="fctypes-wrong")
+
+
 def run(res, shard):
     tier = shard["tier"]
+    if shard["i"] == 0:
+        menus = [(("promoter",), ("terminator",)), (("promoter", "enhancer"), ("terminator",), ("promoter",)), (("a_type",), ("a_type",), ("b_type",))]
+        for tp in menus:
+            n_rows = len(tp) + 1
+            for order in itertools.permutations(range(n_rows)):
+                for strand in "+-":
+                    check_fc_types(res, tp, strand, order)
     for idx, (rec, flavour) in enumerate(dup_records(tier)):
         if idx % shard["n"] == shard["i"]:
             check_dup(res, rec, flavour)
@@ -156,6 +211,9 @@ def run(res, shard):
 
 
 def replay(res, case):
+    if case.get("kind") == "genbank-fctypes":
+        check_fc_types(res, tuple(tuple(t) for t in case["types"]), case["strand"], tuple(case["order"]))
+        return
     if case.get("kind") == "genbank-dup":
         check_dup(res, case["rec"], case["flavour"])
         return
